@@ -233,7 +233,11 @@ fn run(c: &Case, out: &mut Out) {
                 };
                 out.check(ok, || {
                     (
-                        format!("STANDARD/try_to_amino/answer-depends-on-earlier-call [{what}]"),
+                        if what == "priming call" {
+                            "STANDARD/try_to_amino/wrong-answer [call on a reused scratch buffer]".to_string()
+                        } else {
+                            format!("STANDARD/try_to_amino/answer-depends-on-earlier-call [{what}]")
+                        },
                         format!(
                             "after try_to_amino({}) on the same buffer, try_to_amino({:?}) (length {}) = {:?}, expected {:?}",
                             show(&c1),
